@@ -538,6 +538,13 @@ def check_finite(ctx, case, r, helpers, hist):
         if caveat:
             p1 = [x for x in p1 if not (x.startswith('reported E') or x.startswith('energy below'))]
     ended_with_mixer = bool(r.get('mixer_end'))
+    if not ended_with_mixer:
+        # (since the partial repair of F13.7 the engine deactivates the mixer in post_run_cleanup, before the runner can see it:
+        # decide from the options instead - a mixer that is never disabled and a run that used up max_sweeps)
+        o_ = case.get('options', {})
+        mp_ = o_.get('mixer_params') or {}
+        ended_with_mixer = bool(o_.get('mixer')) and 'disable_after' in mp_ and mp_['disable_after'] is None and \
+            o_.get('max_sweeps') is not None and (r.get('sweeps') or 0) >= o_['max_sweeps']
     hist['ext_mixer_active_at_end'] = hist.get('ext_mixer_active_at_end', 0) + int(ended_with_mixer)
     hist['ext_shelved'] = hist.get('ext_shelved', 0) + int(bool(r.get('shelve')))
     if ended_with_mixer and p1 and all(('not canonical' in x or 'reported E' in x or 'not normalised' in x or 'non-diagonal' in x or 'differs from dense' in x) for x in p1):
